@@ -65,6 +65,7 @@ def gen_plan(rng, tier):
         p['pool_v2']['max'] = p['pool_v2']['core'] + rng.choice([0, 1])
         p['knobs'] = {'max_in_flight': 64}
         p['burst_after'] = True
+        p['never_convict'] = rng.random() < 0.5
         for r in p['requests']:
             r['scripts'] = [{'kind': 'ok', 'delay': 0.05}]
         for sw in p['switches']:
